@@ -46,7 +46,7 @@ PROPS = {
                 "self-overlapping aab, --a, -=-, aaa, a-a, ==a, 1.1e) + needles derived from the haystack (its valid-UTF-8 substrings of 2-4 bytes at offsets 1, 2) "
                 "compared with naive window search on bytes (find/contains/starts_with/strip_prefix/split_once/split/try_str); "
                 "RawArgs: op histories (next, next_os, peek, peek_os, is_end, remaining, seek Start/Current/End with offsets "
-                "{0,+-1,+-2,+-3,-4,+-100,i64::MIN,i64::MIN+1,i64::MAX}, insert 0..2 items, cursor clone/compare; two cursors) "
+                "{0,+-1,+-2,+-3,-4,+-100,i64::MIN,i64::MIN+1,i64::MAX}, insert 0..2 items from an exact-size, a size-hint-0 and a size-hint-below-length iterator, cursor clone/compare; two cursors) "
                 "against a (Vec, index) model with uniquely named items: exhaustive over an 8-op alphabet up to length min(L,5) "
                 "on lists of 0..2 items, random histories of length <= 40 beyond. Natively, under Miri and valgrind.",
         "exhaustive_note": "haystacks alphabet^<=L x (16 + derived) needles; cursor histories 8^<=min(L,5) x {0,1,2} items",
@@ -71,7 +71,7 @@ PROPS = {
         "exhaustive_note": "symbols^<=6 x widths 1..8 (quick), symbols^<=7 (thorough): enumerated completely, sliced over shards",
         "assumptions": COMMON_ASSUME + ["whitespace other than ' ' and LF (tab, NBSP, ...) is outside the text class: clap's trim_end()/trim() treat it as trimmable",
                                         "width measured with the same unicode-width tables clap uses (trusted base)",
-                                        "styled: only CSI/SGR sequences are generated; indent after a break in styled text is not judged (wrapper state is carried across style blocks by design)"],
+                                        "styled: only CSI/SGR sequences are generated; in styled text a break may fall anywhere inside a space run (wrapper state is carried across style blocks by design), but what follows it must be exactly the line's indent"],
         "technique": "runtime oracle on recorded (text, width, output): alignment/conservation checker + width bound, exhaustive over short strings and random beyond",
         "level_text": "Every wrap call is judged by an alignment oracle that admits exactly one transformation (space run -> line break + indent); exhaustive for short strings x small widths, 10^5-10^6 random cases beyond.",
         "level_note": "Access through Command::help_template sentinels instead of a hook; the help writer's own trimming is kept out by the `[`...`]` literals.",
@@ -164,16 +164,16 @@ PROPS = {
     "C05": {
         "quick_ms": 15000,
         "thorough_ms": 240000,
-        "floors": {"tail.ok": 10000, "tail.dash-tokens": 5000, "tail.after-values-before-escape": 2500, "tail.dont-delimit-with-delimiter": 500},
+        "floors": {"tail.ok": 10000, "tail.dash-tokens": 5000, "tail.after-values-before-escape": 2500, "tail.dont-delimit-with-delimiter": 500, "tail.terminator-declared": 2500},
         "rule": "conventional commands (options, flags, subcommands incl. flag subcommands, infer_*) whose tail level (root or a subcommand) ends in a "
                 "multi-valued positional `rest` (num_args 0.. / 1.., Set/Append, with/without last(true), with/without a leading single positional, "
-                "String or OsString parser, optional delimiter, dont_delimit_trailing_values) x valid prefixes rendered from intents (any spelling; "
+                "String or OsString parser, optional delimiter, dont_delimit_trailing_values, optional value terminator `end` with/without ignore_case) x valid prefixes rendered from intents (any spelling; "
                 "may leave an option with satisfied minimum pending; a third of the time followed by 1-2 values for `rest` given before the `--`) x "
                 "tails of 0-5 hostile tokens (--help -h -V --version -- - \"\" help, delimiter-bearing tokens (`a,b` `,x` `y,` `,` `-Wl,-x`), every defined "
                 "long/short (+=v), clusters, subcommand names/aliases of this and the root level, hostile alphabet incl. non-UTF-8 for OsString, -1). "
                 "Oracle: parse(prefix -- tail) is Ok, `rest` (and the leading positional) hold the tail byte-for-byte in order (split only at a "
                 "declared delimiter, and not at all under dont_delimit_trailing_values), no subcommand dispatched, no help/version, and every option/flag observation equals that of parse(prefix).",
-        "assumptions": COMMON_ASSUME + ["premise 'able to absorb': the prefix itself parses; positionals are untyped (String/OsString); no value terminator on the tail positional",
+        "assumptions": COMMON_ASSUME + ["premise 'able to absorb': the prefix itself parses; positionals are untyped (String/OsString); the tail never contains the positional's exact value terminator (case variants of it are ordinary values)",
                                         ],
         "technique": "metamorphic + reference-model runtime monitor: parse(prefix) vs parse(prefix -- tail), tail conservation byte-for-byte",
         "level_text": "Two executions per case are compared (non-interference) and the tail is checked for exact conservation; ~10^6 cases per quick run.",
@@ -184,9 +184,10 @@ PROPS = {
         "thorough_ms": 240000,
         "floors": {"lattice.Cli": 10000, "lattice.Env": 5000, "lattice.Default": 5000, "lattice.absent": 2500, "lattice.default_if_fired": 1000,
                    "lattice.default_if_unset": 150, "lattice.default_missing_used": 1000, "verdict.err-as-expected": 1500,
-                   "lattice.group.Some(Cli)": 2000, "lattice.group.Some(Env)": 500, "lattice.group.None": 1000, "lattice.group-conflict": 500},
+                   "lattice.flag-env-falsey-parser": 2500, "lattice.flag-env-empty": 150, "lattice.group.Some(Cli)": 2000, "lattice.group.Some(Env)": 500, "lattice.group.None": 1000, "lattice.group-conflict": 500},
         "rule": "2-5 arguments each drawing a subset of {default_value(s), default_value_if(s) (IsPresent/Equals, Some/None default) on a plain "
-                "option, default_missing + num_args(0..=1) (+ require_equals), env (set/unset, delimiter-split), flags with env true/false} plus one "
+                "option, default_missing + num_args(0..=1) (+ require_equals), env (set/unset, delimiter-split), flags with env true/false or, with the Falsey parser, "
+                "any of {\"\", true, false, 0, no, off, x, yes, 1, FALSE, n, \" \"}} plus one "
                 "conflict, one requires, one override pair and arg_required_else_help chosen so that only a *defaulted* argument could trigger them, and "
                 "(half of the time) a multiple group over some of the arguments with, sometimes, an outside argument conflicting with the group id; x environments x argv "
                 "(each argument absent / with value(s) / without value). Oracle: lattice model cli > env > first matching default-if > default > "
@@ -318,16 +319,19 @@ PROPS = {
         "thorough_ms": 300000,
         "floors": {"totality.candidates": 10000, "totality.no-completion": 2500, "soundness.queries": 50000, "soundness.arg-candidates": 50000,
                    "soundness.command-candidates": 5000, "completeness.args-expected": 25000, "completeness.subcommands-expected": 5000,
-                   "stratum.canonical-spellings": 2500},
+                   "stratum.canonical-spellings": 2500, "soundness.command-dispatch-checked": 2500, "soundness.option-source-checked": 25000,
+                   "stratum.inside-multi-valued-positional": 500},
         "rule": "totality: wild gate-accepted trees (path value hints removed so the file system never enters) x hostile argv x every cursor index "
                 "0..=len+1: complete() returns candidates or the plain 'no completion generated' error, all candidate accessors work, < 5 s CPU. "
                 "soundness/completeness: conventional trees with globals, hidden args/subcommands x prefixes rendered from valid intents that end "
                 "where a new argument may start (no pending value, no `--`) x cursor words {\"\", -, --, --<prefix of each long>, <prefix of each "
                 "subcommand>, --zz, zz}: every arg::/command:: candidate extends the word, names an argument (own or inherited global) / "
                 "subcommand of the level the intent reached and `prefix + candidate (+ required values)` is not rejected by the real parser as "
-                "UnknownArgument/InvalidSubcommand; every visible long (or visible alias) / subcommand name (or visible alias) extending the word "
+                "UnknownArgument/InvalidSubcommand and, when it parses, is read *as such* (that subcommand dispatched / that option set from the "
+                "command line at that level); candidates are also judged inside a multi-valued positional whose minimum is met (no coverage demanded "
+                "there); every visible long (or visible alias) / subcommand name (or visible alias) extending the word "
                 "is represented by its candidate id; no hidden candidate next to a visible one. Prefixes spelled through flag subcommands or "
-                "inferred prefixes are judged too but keyed apart (known findings F22/F23).",
+                "inferred prefixes, hidden aliases, value terminators or negative-number values are judged too but keyed apart (known findings F22/F23/F32/F33/F34).",
         "assumptions": COMMON_ASSUME + ["current_dir = None and no path-hinted values: the file system is outside the claim",
                                         "the level reached and 'a new argument may start' are known by construction from the rendered intent, not re-derived"],
         "technique": "runtime totality monitor + differential oracle against the real parser and the definition (soundness/completeness of candidates)",
@@ -375,11 +379,11 @@ PROPS = {
         "quick_ms": 15000,
         "thorough_ms": 240000,
         "floors": {"roundtrip.ok": 10000, "agree.ok": 15000, "agree.err": 15000, "update.ok": 5000, "update.unnamed-field-kept": 5000, "value_enum.names": 500,
-                   "type.A": 500, "type.B": 500, "type.C": 500, "type.D": 500, "type.E": 500, "type.F": 500, "type.G": 500, "type.L": 500,
+                   "type.N": 500, "type.A": 500, "type.B": 500, "type.C": 500, "type.D": 500, "type.E": 500, "type.F": 500, "type.G": 500, "type.L": 500,
                    "update.sub.option.same-variant": 300, "update.sub.option.other-variant": 300, "update.sub.plain.same-variant": 300, "update.sub.option.no-subcommand-named": 150},
-        "rule": "corpus of 10 derived Parser types (+ Args, 3 Subcommand enums, 1 ValueEnum) spanning bool / SetFalse bool / counter / T / Option<T> / "
+        "rule": "corpus of 11 derived Parser types (+ Args, 3 Subcommand enums, 1 ValueEnum) spanning bool / SetFalse bool / counter / T / Option<T> / "
                 "Option<Option<T>> (with and without default) / Vec<T> / Option<Vec<T>> / delimited Vec / fixed-arity Vec / last Vec / positionals / default_value_t / "
-                "default_values_t / default_missing_value / env / rename_all / flatten / global / optional, required, nested and external subcommands / "
+                "default_values_t / default_missing_value / env / rename_all / flatten / global / optional, required, nested, tuple-variant, flattened-enum and external subcommands / "
                 "value_enum with aliases, renamed, hidden and skipped variants. Per type: random values are printed to argv and parsed back (round trip); "
                 "the printed line and 3 mutations of it (token dropped/duplicated/swapped/suffixed, --bogus, -h, --, empty, overflow) are parsed by "
                 "T::try_parse_from and by T::command() + a hand-written extractor (by shape, builder API only): Ok/Err and error kind must agree, "
